@@ -99,7 +99,7 @@ func TestC07(t *testing.T) {
 	if Thorough() {
 		top = 4200
 	}
-	for _, ct := range []int32{15, 16, 12} {
+	for _, ct := range []int32{15, 16, 12, 20, 19} {
 		et := cksumEtypeSpec(ct)
 		e, err := crypto.GetChksumEtype(ct)
 		if err != nil {
@@ -110,9 +110,12 @@ func TestC07(t *testing.T) {
 			if ct == 12 && !Thorough() && u > 64 {
 				break
 			}
+			if (ct == 19 || ct == 20) && !Thorough() && u > 260 {
+				break
+			}
 			us = append(us, u)
 		}
-		us = append(us, 4087, 4088, 4095, 4096, 65535, 65536, 65791, 1<<24-1, 1<<24, 1<<32-1)
+		us = append(us, 4087, 4088, 4095, 4096, 426, 0xAA00, 0x9900, 0x55AA, 0xAA0000, 0xAA000000, 0x99000001, 65535, 65536, 65791, 1<<24-1, 1<<24, 1<<32-1)
 		for i := 0; i < 40; i++ {
 			us = append(us, uint32(rng.U64())|1)
 		}
@@ -178,6 +181,27 @@ func TestC07(t *testing.T) {
 				if got {
 					v.Violate("failing-input", fmt.Sprintf("c07:verify:wrong-size-key:%d", ct), "VerifyChecksum returned true under a key of the wrong size "+pan, map[string]string{"cksumtype": itoa(ct), "key": X(bad), "data": X(data), "cksum": X(c)})
 				}
+			}
+		}
+	}
+	// what GetChecksumHash computes, VerifyChecksum accepts: for every usage of the library's set, each checksum
+	// type (the rc4 usages 3, 9 and 23 are translated on both paths)
+	for _, ct := range cksumTypes {
+		et := cksumEtypeSpec(ct)
+		e, err := crypto.GetChksumEtype(ct)
+		if err != nil {
+			continue
+		}
+		for _, usage := range usageSet {
+			key := randKey(rng, et)
+			data := rng.Bytes(11)
+			sum, cerr := e.GetChecksumHash(key, data, usage)
+			ok := false
+			pan := Protect(func() { ok = e.VerifyChecksum(key, data, sum, usage) })
+			v.Case(fmt.Sprintf("compute-then-verify/%d/%d", ct, usage), "verify exact")
+			if cerr != nil || pan != "" || !ok {
+				v.Violate("failing-input", fmt.Sprintf("c07:verify:exact:%d", ct), "VerifyChecksum rejects the checksum GetChecksumHash computes for the same key, data and usage", map[string]string{"cksumtype": itoa(ct), "usage": itoa(usage), "key": X(key), "data": X(data), "cksum": X(sum)})
+				break
 			}
 		}
 	}
